@@ -1245,7 +1245,11 @@ class ApertureStats:
         """
         areas = np.array([np.sum(weight.filled(0.0))
                           for weight in self._weight_cutout])
-        areas[self._all_masked] = np.nan
+        # all pixels masked in the cutouts of the ``sum_method`` aperture
+        # masks (not of the "center" masks: a small aperture may contain
+        # no pixel center, but still overlap unmasked pixels)
+        all_masked = np.array([np.all(mask) for mask in self._mask_cutout])
+        areas[all_masked] = np.nan
         return areas << (u.pix**2)
 
     @lazyproperty
